@@ -73,6 +73,8 @@ NavigationAgrees(o, cx) ==
             LET f == o.models[m].files[j] IN
             /\ o.f[f].dfs = OFileDfs(o, rt, f, 0, 0, Fuel(o))
             /\ o.f[f].dfs1 = OFileDfs(o, rt, f, 0, 1, Fuel(o))
+            /\ o.f[f].dfs2 = OFileDfs(o, rt, f, 0, 2, Fuel(o))
+            /\ o.f[f].dfs3 = OFileDfs(o, rt, f, 0, 3, Fuel(o))
 
 \* handles that are not part of any tree: every place-dependent question is answered with an error
 StaleHandlesInert(o, cx) ==
